@@ -107,6 +107,11 @@ func (c *Ctx) clockReading(call *ssa.Call) (string, bool) {
 	if !isNow || !typeIs(call.Type(), "time", "Time") {
 		return "", false
 	}
+	return c.positionToOrigin(call), true
+}
+
+// positionToOrigin: "before" / "after" / "" for a call instruction relative to the origin calls of its function.
+func (c *Ctx) positionToOrigin(call *ssa.Call) string {
 	fn := call.Parent()
 	before, after := false, false // an origin call after / before the reading
 	for _, b := range fn.Blocks {
@@ -144,11 +149,11 @@ func (c *Ctx) clockReading(call *ssa.Call) (string, bool) {
 	}
 	switch {
 	case before && !after:
-		return "before", true
+		return "before"
 	case after && !before:
-		return "after", true
+		return "after"
 	}
-	return "", true
+	return ""
 }
 
 // mayUpstreamCall: a call instruction (not a go statement) whose callee may reach an origin call.
@@ -238,6 +243,20 @@ func ruleTimeRoles(c *Ctx, rule string) {
 			if callIsPkgFunc(&call.Call, "time", "Parse") {
 				readings++ // the decoder of a stored entry: which column feeds which field is the codec rule's business
 				return false
+			}
+			// a helper that reads the clock for its caller (`r.now()`): the reading takes place where the helper is called
+			if typeIs(call.Type(), "time", "Time") && !c.mayUpstreamCall(call) && !c.An.IsUpstreamSite(call) {
+				if callees := c.P.RepoCallees(call); len(callees) > 0 && c.readsClockOnly(callees) {
+					readings++
+					pos := c.positionToOrigin(call)
+					switch {
+					case pos == "":
+						odd = append(odd, c.P.ShortName(call.Parent())+"@"+c.P.InstrPos(call))
+					case pos != si.want:
+						wrong = append(wrong, c.P.ShortName(call.Parent())+"@"+c.P.InstrPos(call))
+					}
+					return false
+				}
 			}
 			return true
 		})
@@ -337,6 +356,23 @@ func ruleSelectingValuesFromRequest(c *Ctx, rule string) {
 		for _, a := range args {
 			if isHTTPHeader(a.Type()) {
 				check(sr, in, a, "the Vary resolver")
+			}
+		}
+		// a resolver that is given the message itself
+		hasHeader := false
+		for _, a := range args {
+			if isHTTPHeader(a.Type()) {
+				hasHeader = true
+			}
+		}
+		if !hasHeader {
+			for _, a := range args {
+				where := c.P.ShortName(sr) + "@" + c.P.InstrPos(in)
+				key := "selecting-values-from-request the Vary resolver fn=" + c.P.ShortName(sr)
+				if isHTTPRequestPtr(a.Type()) {
+					n++
+					c.Pass(rule, key, desc, where)
+				}
 			}
 		}
 	})
@@ -1599,5 +1635,265 @@ func ruleDroppedResponseIsClosed(c *Ctx, rule string) {
 	}
 	if n == 0 {
 		c.Undecided(rule, "dropped-response-closed", desc, "no function without a response result calls the origin")
+	}
+}
+
+// readsClockOnly: every function of fns is a small helper without an origin call whose time result is a clock reading
+// (it contains a Now call and no origin call).
+func (c *Ctx) readsClockOnly(fns []*ssa.Function) bool {
+	for _, f := range fns {
+		if c.An.MayUpstream(f, false) {
+			return false
+		}
+		has := false
+		instrsOf(f, func(in ssa.Instruction) {
+			if call, ok := in.(*ssa.Call); ok {
+				if (call.Call.IsInvoke() && call.Call.Method.Name() == "Now") || callIsPkgFunc(&call.Call, "time", "Now") {
+					has = true
+				}
+			}
+		})
+		if !has {
+			return false
+		}
+	}
+	return true
+}
+
+// ruleMetaLineColumns (C11.21 / C09.29): the entry's meta line is written and read column by column; the column a field
+// is written to is the column it is read from. For every field of the entry type that the meta-line writer formats
+// (its value reaches an argument of the Fprintf) and the entry parser stores from a column (`parts[k]`), the argument
+// position equals k, and no two fields share a column. With the two times in each other's column (or one time in both)
+// an entry that went through the store has a response delay of zero or a negative one, and its Age is off by the delay.
+func ruleMetaLineColumns(c *Ctx, rule string) {
+	if !c.Need(rule, "entryParser") || c.A.EntryT == nil {
+		return
+	}
+	desc := "every field of the entry's meta line is read from the column it is written to"
+	st, ok := c.A.EntryT.Underlying().(*types.Struct)
+	if !ok {
+		c.Undecided(rule, "meta-line-columns", desc, "entry type is not a struct")
+		return
+	}
+	fieldOfLoad := func(v ssa.Value) int {
+		f := -1
+		c.P.TraceBack(v, TraceOpts{ThroughOps: true, ThroughExtern: true, NoParams: true, NoHeapFields: true}, func(x ssa.Value, _ []int) bool {
+			if u, ok := x.(*ssa.UnOp); ok && u.Op == token.MUL {
+				if fa, ok := u.X.(*ssa.FieldAddr); ok && isPtrToNamed(fa.X.Type(), c.A.EntryT) {
+					f = fa.Field
+					return false
+				}
+			}
+			if fl, ok := x.(*ssa.Field); ok && isNamed(fl.X.Type(), c.A.EntryT) {
+				f = fl.Field
+				return false
+			}
+			return true
+		})
+		return f
+	}
+	// writer: a Fprintf/Sprintf/Appendf in a method of the entry type whose arguments are entry fields
+	written := map[int]int{} // field -> column
+	var wfn *ssa.Function
+	for _, fn := range c.P.RepoFuncs {
+		if fn.Pkg == nil || fn.Pkg.Pkg.Path() != c.A.internalPath || isTestOnly(c, fn) || fn.Signature.Recv() == nil {
+			continue
+		}
+		if !isNamed(derefType(fn.Signature.Recv().Type()), c.A.EntryT) {
+			continue
+		}
+		instrsOf(fn, func(in ssa.Instruction) {
+			cc := callOf(in)
+			if cc == nil || !(callIsPkgFunc(cc, "fmt", "Fprintf") || callIsPkgFunc(cc, "fmt", "Sprintf") || callIsPkgFunc(cc, "fmt", "Appendf")) {
+				return
+			}
+			args := sprintfArgs(cc)
+			cols := map[int]int{}
+			for i, a := range args {
+				if a == nil {
+					continue
+				}
+				if f := fieldOfLoad(a); f >= 0 {
+					cols[f] = i
+				}
+			}
+			if len(cols) >= 2 || len(cols) == len(args) && len(args) >= 2 {
+				written = cols
+				wfn = fn
+				// a field written twice shows as a column without a field of its own
+				if len(cols) < len(args) {
+					written[-1] = len(args)
+				}
+			}
+		})
+	}
+	// reader: stores into entry fields whose value comes from parts[k]
+	read := map[int]int{}
+	ep := c.A.F("entryParser")
+	for _, fn := range append([]*ssa.Function{ep}, c.reachableFrom(ep)...) {
+		instrsOf(fn, func(in ssa.Instruction) {
+			s, ok := in.(*ssa.Store)
+			if !ok {
+				return
+			}
+			fa, ok := s.Addr.(*ssa.FieldAddr)
+			if !ok || !isPtrToNamed(fa.X.Type(), c.A.EntryT) {
+				return
+			}
+			c.P.TraceBack(s.Val, TraceOpts{ThroughOps: true, ThroughExtern: true, NoParams: true, NoHeapFields: true}, func(x ssa.Value, _ []int) bool {
+				if u, ok := x.(*ssa.UnOp); ok && u.Op == token.MUL {
+					if ia, ok := u.X.(*ssa.IndexAddr); ok {
+						if k, ok := constInt(ia.Index); ok {
+							if sl, ok := ia.X.Type().Underlying().(*types.Slice); ok {
+								if _, ok := sl.Elem().Underlying().(*types.Slice); ok {
+									read[fa.Field] = int(k)
+									return false
+								}
+							}
+						}
+					}
+				}
+				return true
+			})
+		})
+	}
+	if wfn == nil || len(read) < 2 {
+		c.Undecided(rule, "meta-line-columns", desc, fmt.Sprintf("meta-line writer found=%v, columns read by the parser=%d", wfn != nil, len(read)))
+		return
+	}
+	var bad []string
+	seenCol := map[int]string{}
+	for f, k := range read {
+		name := st.Field(f).Name()
+		if w, ok := written[f]; !ok {
+			bad = append(bad, name+" is read from column "+fmt.Sprint(k)+" but not written")
+		} else if w != k {
+			bad = append(bad, fmt.Sprintf("%s is written to column %d and read from column %d", name, w, k))
+		}
+		if other, dup := seenCol[k]; dup {
+			bad = append(bad, fmt.Sprintf("%s and %s are read from the same column %d", other, name, k))
+		}
+		seenCol[k] = name
+	}
+	sort.Strings(bad)
+	where := c.P.ShortName(wfn) + " / " + c.P.ShortName(ep)
+	if len(bad) > 0 {
+		c.Fail(rule, "meta-line-columns", desc, where+": "+strings.Join(bad, "; ")+"; an entry that went through the store has its request and response time mixed up: with a 3 s origin the Age of every hit served from the reloaded entry is off by the delay", where)
+		return
+	}
+	c.Pass(rule, "meta-line-columns", desc, fmt.Sprintf("%s: %d columns", where, len(read)))
+}
+
+// ruleLocationResolvedAgainstRequestURL (C07.19): a relative Location / Content-Location names a URI relative to the
+// request's target: in the invalidator the receiver of ResolveReference derives from the request URL (a parameter), its
+// argument from the parsed field value. The other way round a relative `Location: /doc` resolves to the request URL
+// itself, and the named URI keeps its stored response.
+func ruleLocationResolvedAgainstRequestURL(c *Ctx, rule string) {
+	if !c.Need(rule, "invalidate") {
+		return
+	}
+	desc := "Location values are resolved against the request URL (receiver: request URL, argument: parsed field value)"
+	n := 0
+	for _, fn := range c.reachableFrom(c.A.F("invalidate")) {
+		instrsOf(fn, func(in ssa.Instruction) {
+			call, ok := in.(*ssa.Call)
+			if !ok || !callIsMethod(&call.Call, "net/url", "URL", "ResolveReference") {
+				return
+			}
+			recv, args := recvAndArgs(&call.Call)
+			if len(args) != 1 {
+				return
+			}
+			n++
+			fromParse := func(v ssa.Value) bool {
+				hit := false
+				c.P.TraceBack(v, TraceOpts{NoParams: true, NoHeapFields: true}, func(x ssa.Value, _ []int) bool {
+					if ex, ok := x.(*ssa.Extract); ok {
+						if cl, ok := ex.Tuple.(*ssa.Call); ok && (callIsPkgFunc(&cl.Call, "net/url", "Parse") || callIsPkgFunc(&cl.Call, "net/url", "ParseRequestURI")) {
+							hit = true
+							return false
+						}
+					}
+					return true
+				})
+				return hit
+			}
+			where := c.P.ShortName(fn) + "@" + c.P.InstrPos(call)
+			switch {
+			case fromParse(recv) && !fromParse(args[0]):
+				c.Fail(rule, "location-resolve-direction", desc, where+": the parsed field value is the base and the request URL the reference; `POST /orders` answered `201` with `Location: /orders/17` resolves to `/orders`, and the stored response of `/orders/17` stays", where)
+			case fromParse(args[0]) && !fromParse(recv):
+				c.Pass(rule, "location-resolve-direction", desc, where)
+			default:
+				n-- // another use of ResolveReference (the key function normalises a path with it)
+			}
+		})
+	}
+	if n == 0 {
+		c.Undecided(rule, "location-resolve-direction", desc, "no ResolveReference call in the invalidator's tree")
+	}
+}
+
+// ruleWrittenBytesAreTheValue (C14.28): what the file-system backend writes into the entry file is the value it was
+// given (as it is, or its encryption): the argument of the file's Write in the writing function derives from the []byte
+// parameter of that function, and from nothing else of the same type (the key, another buffer).
+func ruleWrittenBytesAreTheValue(c *Ctx, rule string) {
+	if c.P.Pkg("store/fscache") == nil {
+		return
+	}
+	desc := "the bytes written to an entry file derive from the value parameter of the writing function"
+	n := 0
+	for _, fn := range c.fsBackendFuncs() {
+		var valParam *ssa.Parameter
+		for _, p := range fn.Params {
+			if sl, ok := p.Type().Underlying().(*types.Slice); ok {
+				if b, ok := sl.Elem().Underlying().(*types.Basic); ok && b.Kind() == types.Byte {
+					valParam = p
+				}
+			}
+		}
+		if valParam == nil {
+			continue
+		}
+		instrsOf(fn, func(in ssa.Instruction) {
+			cc := callOf(in)
+			if cc == nil || !callIsMethod(cc, "os", "File", "Write") {
+				return
+			}
+			_, args := recvAndArgs(cc)
+			if len(args) != 1 {
+				return
+			}
+			n++
+			fromVal, other := false, ""
+			c.P.TraceBack(args[0], TraceOpts{ThroughExtern: true, NoParams: true, NoHeapFields: true}, func(x ssa.Value, _ []int) bool {
+				switch y := x.(type) {
+				case *ssa.Parameter:
+					if y == valParam {
+						fromVal = true
+					} else if y.Parent() == fn && isStringType(y.Type()) {
+						other = "parameter " + y.Name()
+					}
+				case *ssa.Convert:
+					if isStringType(y.X.Type()) {
+						// a string converted to bytes: follow it (the key)
+						return true
+					}
+				}
+				return true
+			})
+			where := c.P.ShortName(fn) + "@" + c.P.InstrPos(in)
+			switch {
+			case other != "":
+				c.Fail(rule, "written-bytes-are-the-value fn="+c.P.ShortName(fn), desc, where+": the written bytes derive from "+other+"; Get returns something that was never passed to Set for that key", where)
+			case !fromVal:
+				c.Fail(rule, "written-bytes-are-the-value fn="+c.P.ShortName(fn), desc, where+": the written bytes do not derive from "+valParam.Name(), where)
+			default:
+				c.Pass(rule, "written-bytes-are-the-value fn="+c.P.ShortName(fn), desc, where)
+			}
+		})
+	}
+	if n == 0 {
+		c.Undecided(rule, "written-bytes-are-the-value", desc, "no (*os.File).Write in a function of the file-system backend with a []byte parameter")
 	}
 }
